@@ -8,7 +8,7 @@ import random
 LEAF_BOUNDS = [(0, 1), (0, 1), (0, 1), (-2, 2), (0, 3), (1, 2), (-3, -1), (-32768, 32767)]
 
 
-def leaf_pool(n=6, int_leaves=True):
+def leaf_pool(n=8, int_leaves=True):
     import puan
     pool = []
     for k in range(n):
@@ -24,7 +24,18 @@ def rand_model(rng, pool, depth=2, width=3, classes=None, ids=True, top=True):
     counter = rand_model.__dict__.setdefault("counter", itertools.count())
 
     def fresh():
-        return f"N{next(counter)}" if ids else None
+        if not ids:
+            return None
+        k = next(counter)
+        # explicit ids include shapes that resemble generated ids, contain separators / spaces / commas, or are numeric
+        style = rng.random()
+        if style < 0.12:
+            return f"VARIANT-{k}"
+        if style < 0.2:
+            return f"n {k},x"
+        if style < 0.26:
+            return f"{k}"
+        return f"N{k}"
 
     def sub(d):
         if d == 0 or rng.random() < 0.35:
